@@ -108,6 +108,20 @@ ROUND6 = {
 }
 for k, v in ROUND6.items():
     CHECKS[k]["text"] += " " + v
+# ... and in the seventh
+ROUND7 = {
+ "C01": "One scenario parks a request between finding the key's manager and taking its mutex while the manager is released, goes round the free ring of 8 and is re-issued to another key.",
+ "C03": "Queues of 3 / 9 waiters in which an answered waiter stays behind a live head and is cancelled again.",
+ "C06": "Renewals that turn a timed hold into an unlimited one or give it the longest period.",
+ "C07": "Log buffer 64 with rotation (a value-carrying record that fills the buffer triggers the rotation); the smallest minute-unit values; a renewed hold whose first record has lapsed.",
+ "C10": "Replicated holds given in milliseconds on a follower whose leader is silent.",
+ "C13": "Every stream runs under happens-before tracking (vector clocks over mutexes, atomics, channels, network, spawn) with every map access of the server instrumented: two accesses to one map, one of them a write, that are not ordered are reported as the pair the Go runtime kills the process for, whatever the timing; a group runs every listing / inspection command between writers of the slow-key map; a group sends acknowledgement-required show / update requests beside a hold that claims to come from the log.",
+ "C14": "Every key-value command form between a LOCK and an UNLOCK without LOCK_ID on one text connection.",
+ "C17": "An enumeration fills one key with 120..248 holders, releases them first-in first-out (every record is promoted to current holder and released as such, also those kept in the map-indexed form of the holder queue), lets one LockId come back and compares the reported counts with a census at every stage.",
+}
+for k, v in ROUND7.items():
+    CHECKS[k]["text"] += " " + v
+CHECKS["C13"]["technique"] += " + happens-before (vector-clock) race check on instrumented map accesses in every explored execution"
 
 NA_DEFAULT = "check not built yet in this round (planned: see DESIGN.md section 4)"
 
